@@ -10,7 +10,8 @@ design       : TLC checks SubsetCmapOK on the model of the subsetter's cmap path
 spec -> impl : the first run prints one CASE per (source mapping, glyph id list, target): the glyph the
                PROPERTY prescribes for every probe character and the encoding record the writer model
                predicts.  The harness synthesizes a TrueType font per case (source formats 4 / 12 / 0 /
-               symbol 3-0, n glyphs up to 65534), calls subset::subset and prince::subset (Unrestricted /
+               symbol 3-0, n glyphs up to 65534; family tab: the sub-table TLC hands over, formats 0 / 2 / 4 / 6 /
+               10 / 12 under Unicode, Mac Roman, Symbol and Big5 records), calls subset::subset and prince::subset (Unrestricted /
                MacRoman), reads the output cmap with its independent reader and through
                Font::lookup_glyph_index and compares with the prescription by equality.
 impl -> spec : repository fonts x glyph lists from selection patterns x api/target; one event per subset
@@ -43,9 +44,17 @@ ASSUMPTIONS = [
     "the Font::lookup_glyph_index view is judged for Unicode records (all characters) and Mac Roman records "
     "(definite Mac Roman characters); for Symbol records it is not (needs OS/2.usFirstCharIndex, which a "
     "TrueType subset does not carry); Font's fallback for non Mac Roman characters is C06's matter",
-    "surrogate code points, Big5 and format 2 sources, PrinceCmapTarget::MacRomanCmap (caller-supplied table) and "
-    "Omit (no cmap; only counted) are outside the property; a subset call that returns Err gives no subset font "
-    "and no verdict (counted, vacuity-guarded)",
+    "PrinceCmapTarget::MacRomanCmap (caller-supplied table) and Omit (no cmap; only counted) are outside the property; a "
+    "subset call that returns Err gives no subset font and no verdict (counted, vacuity-guarded)",
+    "table sources (family tab): hand-written sub-tables of formats 0, 2, 4, 6, 10, 12 under Unicode, Mac Roman, Symbol and "
+    "Big5 records, encoded as they are; the glyph of a character is the glyph the table's LOOKUP (Cmap.tla Map) gives its "
+    "code: a glyphIndexArray / glyphIdArray entry 0 is glyph 0 whatever idDelta says; a code that is not a character of "
+    "the record's encoding (a surrogate, a code that is not a Big5 code) denotes no character",
+    "Big5: the specification knows 0x00..0x7F, 0xA440..0xA453, 0xA45D, nine sample characters and the three characters Big5 "
+    "holds twice that the sources use (U+2550, U+5341, U+5345; the encoder yields the last code); generated Big5 sources list "
+    "glyphs only under those codes or under codes that are not Big5 codes; a character with two codes is generated with both "
+    "codes on one glyph (which glyph the property names when they differ is ambiguous: not generated); the HKSCS area that "
+    "allsorts decodes but never encodes (Cmap.tla Dev_Big5DecodeSuperset) is not generated; no Big5 font among the repository fonts",
 ]
 
 NEED_SHAPES = ["f0", "f12", "f4:delta", "f4:gia", "f4sym:delta", "f4sym:gia"]
@@ -54,6 +63,9 @@ NEED_SHAPES = ["f0", "f12", "f4:delta", "f4:gia", "f4sym:delta", "f4sym:gia"]
 # sub-tables it builds from them (its inputs), never from what allsorts returns.
 SYM_FIRSTS = ["absent", "0x0", "0x10", "0x1F", "0x20", "0x21", "0xF000", "0xF020", "0xF0FF", "0xF100"]
 TARGETS = ["Unrestricted", "MacRoman"]
+# record / format combinations of the table sources
+TAB_RECORDS = ["3/1:f2", "3/4:f2", "3/0:f2", "3/4:f4", "3/4:f6", "3/1:f6", "0/3:f6", "1/0:f6", "3/0:f6", "3/10:f10", "0/4:f10",
+               "0/3:f0", "1/0:f0", "3/1:f4", "3/0:f4", "3/10:f12", "0/4:f12"]
 ROUTES = ["route:subset|Unrestricted", "route:prince|Unrestricted", "route:prince-cid|Unrestricted", "route:prince-new|Unrestricted",
           "route:prince|MacRoman", "route:prince-cid|MacRoman", "route:prince-new|MacRoman"]
 
@@ -68,6 +80,22 @@ def _need_families(quick):
         need += ["several-characters-per-glyph|pad=%d|%s" % (pd, t) for pd in ((0, 253, 254, 300) if quick else (0, 252, 253, 254, 255, 300, 65530))]
     need += ["src:3/10:f12|character-mapped-to-glyph-0-explicitly", "src:3/1:f4|character-mapped-to-glyph-0-explicitly",
              "src:3/1:f4gia|character-mapped-to-glyph-0-explicitly"]
+    # sources given as tables (family `tab`): every format mappings_fn walks, under every kind of record, with holes
+    # (entries 0, also under a non-zero idDelta, the glyph idDelta names retained), wrapping idDelta, boundary windows
+    for t in TARGETS:
+        need += ["src-record:%s|%s" % (r, t) for r in TAB_RECORDS]
+        need += ["src:f2|%s|hole-under-nonzero-idDelta|%s" % (k, t) for k in ("single", "double")]
+        need += ["src:f2|%s|hole-under-nonzero-idDelta|glyph-idDelta-retained|%s" % (k, t) for k in ("single", "double")]
+        need += ["src:f4|glyphIdArray-hole-under-nonzero-idDelta|" + t, "src:f0|holes|" + t, "src:f6|holes|" + t, "src:f10|holes|" + t]
+        need += ["src:big5|%s|retained|%s" % (k, t) for k in ("single-byte-code", "two-byte-code", "single-byte-not-a-big5-code",
+                                                                "lead-byte-not-a-big5-lead", "trail-byte-not-a-big5-trail")]
+        need += ["src:big5|character-with-two-codes|both-retained|" + t]
+    need += ["src:f2|double|idDelta-negative", "src:f2|double|idDelta-wraps-past-65535", "src:f2|two-lead-bytes-one-sub-header",
+             "src:f2|lead-byte-0xFF", "src:f2|sub-header-without-entries", "src:f2|single|window-starts-at-byte-0",
+             "src:f2|single|window-ends-at-byte-0xFF", "src:f2|double|window-starts-at-byte-0", "src:f2|double|window-ends-at-byte-0xFF",
+             "src:f4|idDelta-negative", "src:f4|idDelta-wraps-past-65535", "src:f6|first-code-0", "src:f6|ends-at-0xFFFF",
+             "src:f6|leading-and-trailing-0", "src:f10|spans-bmp-astral-border", "src:f10|ends-at-0x10FFFF", "src:f0|codes-0-and-255-mapped",
+             "src:f12|group-from-glyph-0", "src:f12|group-holds-surrogates", "src:f12|ends-at-0x10FFFF"]
     return need
 
 
